@@ -203,3 +203,11 @@ contract("usim._primitives.task.Task.__init__.payload_wrapper",
                                     "forall(Interrupt, lambda i: implies(at_loop_entry(i._revoked), i._revoked))",
                                     "self._result is not None and self.reported and self.__runner__.state == 1"]},
          props=["C03", "C04", "C05", "C06", "C01"])
+
+# ~task.done / ~(~task.done): the inverse condition object, whose value is the negation (C08)
+contract("usim._primitives.task.Done.__invert__",
+         params={"self": REF("Done")}, returns=REF("NotDone"), chain_ensures=True, check_frame=False,
+         ensures=["result is self._inverse", "bool(result) == (not bool(self))"], modifies=[], props=["C08"])
+contract("usim._primitives.task.NotDone.__invert__",
+         params={"self": REF("NotDone")}, returns=REF("Done"), chain_ensures=True, check_frame=False,
+         ensures=["result is self._done", "bool(result) == (not bool(self))"], modifies=[], props=["C08"])
